@@ -1,5 +1,5 @@
 from pyvc.verify import (contract, Contract, Exc, INT_, BOOL_, STR_, BYTES_, JSON_, NONE_, LIST, CONST, OBJ, ONEOF,
-                         REPO, OPAQUE, RAW, TUPLE, ENUM, OBJSEQ, PYLIST, PYDICT, JSONOV, native, RecSpec, only, NEW)
+                         REPO, OPAQUE, RAW, TUPLE, ENUM, OBJSEQ, PYLIST, PYDICT, JSONOV, native, RecSpec, only, NEW, FMAP)
 from spec.device import *     # noqa: ghost schema, classify, ghost_step ...
 import spec.btc               # noqa: A-BTC externals
 import spec.fs                # noqa: A-FS externals
